@@ -16,7 +16,7 @@ from ..ref import formula as F
 
 ID = 'C14'
 LEVEL = 'exploration'
-BUDGET_S = {'quick': 150, 'thorough': 1500}
+BUDGET_S = {'quick': 300, 'thorough': 1500}
 RELATION = 'independent-search'
 RULE = ('one workbook per generated table (key column of height 1-8, width 1-4, coordinate-coded payload) with up to ~40 lookup '
         'formulas; ADDRESS(r,c) for every column 1..16384 x sampled rows through overrides, COLUMN for references across A..XFD; '
